@@ -472,6 +472,25 @@ func (e *Engine) declareMapByName(vc *VC, m string) {
 		vc.ghostMap(strings.TrimPrefix(m, "G_"))
 		return
 	}
+	if strings.HasPrefix(m, "E_") {
+		// element map of slices of a named type or of pointers to one: find the type by its key
+		for _, p := range e.pkgs {
+			scope := p.Types.Scope()
+			for _, n := range scope.Names() {
+				tn, ok := scope.Lookup(n).(*types.TypeName)
+				if !ok {
+					continue
+				}
+				for _, cand := range []types.Type{tn.Type(), types.NewPointer(tn.Type())} {
+					if elemMapName(cand) == m {
+						vc.elemLoc(cand, "0", "0")
+						return
+					}
+				}
+			}
+		}
+		return
+	}
 	if !strings.HasPrefix(m, "F_") {
 		return
 	}
